@@ -1,0 +1,55 @@
+//go:build verif
+// +build verif
+
+package os
+
+import "strings"
+
+// NewFSForVerif returns an FS with the given root (slash separated, no leading slash) and volume name.
+func NewFSForVerif(root, volumeName string) *FS {
+	return &FS{root: root, volumeName: volumeName}
+}
+
+// RootForVerif reports the root and volume name of fs.
+func (fs *FS) RootForVerif() (root, volumeName string) {
+	return fs.root, fs.volumeName
+}
+
+// ToOSPathFor exposes toOSPath with an explicit GOOS and separator.
+func (fs *FS) ToOSPathFor(goos string, separator rune, fsPath string) (string, error) {
+	p, err := fs.toOSPath(goos, separator, osPathOp, fsPath)
+	if err != nil { // typed nil guard
+		return "", err
+	}
+	return p, nil
+}
+
+// FromOSPathFor exposes fromOSPath with an explicit GOOS and separator. Volume names are resolved with
+// Windows conventions when goos is "windows" (drive letters and UNC shares), and are empty otherwise.
+func (fs *FS) FromOSPathFor(goos string, separator rune, osPath string) (string, error) {
+	return fs.fromOSPath(goos, separator, func(p string) string { return volumeNameFor(goos, separator, p) }, osPathOp, osPath)
+}
+
+func volumeNameFor(goos string, separator rune, p string) string {
+	if goos != goosWindows {
+		return ""
+	}
+	sep := string(separator)
+	if len(p) >= 2 && p[1] == ':' {
+		return p[:2]
+	}
+	if strings.HasPrefix(p, sep+sep) {
+		// \\server\share
+		rest := p[2:]
+		i := strings.Index(rest, sep)
+		if i <= 0 {
+			return ""
+		}
+		j := strings.Index(rest[i+1:], sep)
+		if j < 0 {
+			return p
+		}
+		return p[:2+i+1+j]
+	}
+	return ""
+}
